@@ -200,6 +200,36 @@ def run_ccn(c):
     return rec
 
 
+def run_bigclique(c):
+    """Group 2 = clique on k nodes without a perfect matching, group 1 = a hub linked to all of them and a node
+    linked to the first half: the cross clustering family, compiled and `_sparse`, against closed forms."""
+    from pyunicorn.core import InteractingNetworks
+    k = c["k"]
+    n = k + 2
+    A = np.zeros((n, n), dtype=int)
+    A[2:, 2:] = 1
+    for p in range(0, k - 1, 2):
+        A[2 + p, 3 + p] = A[3 + p, 2 + p] = 0
+    np.fill_diagonal(A, 0)
+    A[0, 2:] = A[2:, 0] = 1
+    A[1, 2:2 + k // 2] = 1
+    A[2:2 + k // 2, 1] = 1
+    rec = dict(c)
+    o = {"exc": ""}
+    try:
+        net = InteractingNetworks(A, silence_level=3)
+        L1, L2 = [0, 1], list(range(2, n))
+        for nm in ("cross_local_clustering", "cross_local_clustering_sparse"):
+            o[nm] = enc.arr(getattr(net, nm)(L1, L2))
+        for nm in ("cross_transitivity", "cross_transitivity_sparse", "cross_global_clustering",
+                   "cross_global_clustering_sparse"):
+            o[nm] = enc.num(getattr(net, nm)(L1, L2))
+    except Exception as ex:
+        o["exc"] = type(ex).__name__
+    rec["obs"] = o
+    return rec
+
+
 def _nontrivial(rec):
     return len(rec["L1"]) + len(rec["L2"]) >= 3 and sum(map(sum, rec["A"])) > 0
 
@@ -222,11 +252,20 @@ def main(ctx):
     recs += ctx.run_cases("props.c11.run_ccn", ccn)
     ctx.extra["coupled_climate_network_cases"] = len(ccn)
     ctx.validate("Val_C11", "Val_C11", recs, nontrivial=_nontrivial)
+    # large groups: closed forms proved against the definitions on the small members of the family
+    big = [{"case": "k%d" % k, "blk": "bigclique", "k": k} for k in ((4, 6, 8, 300) if ctx.tier == "quick"
+                                                                       else (4, 6, 8, 130, 260, 300, 520))]
+    brecs = ctx.run_cases("props.c11.run_bigclique", big)
+    ctx.validate("Val_C11big", "Val_C11big", brecs, stage="Val_C11big", nontrivial=lambda r: True)
 
 
 def replay(ctx, rep):
     rec = rep["record"]
     case = {k: v for k, v in rec.items() if k not in ("obs", "swap", "whole", "plain")}
+    if rec.get("blk") == "bigclique":
+        brecs = ctx.run_cases("props.c11.run_bigclique", [{k: v for k, v in rec.items() if k != "obs"}], jobs=1)
+        ctx.validate("Val_C11big", "Val_C11big", brecs, stage="Val_C11big", nontrivial=lambda r: True)
+        return
     if rec.get("blk") == "ccn":
         recs = ctx.run_cases("props.c11.run_ccn", [case], jobs=1)
         ctx.validate("Val_C11", "Val_C11", recs, nontrivial=_nontrivial)
